@@ -1,14 +1,15 @@
 (* P_C17 — property theorems for C17 (function bases are eigenfunctions in the documented column
    order; basis-space Laplacians are exact).  Statements only; `Gen_C17.*` regenerated from
    function_basis.py and operators.py on every run.
-   ORTHOGONALITY on the sphere (the first clause of the property) is NOT proved in Coq in this
-   version: it is checked numerically by the harness (exact Gauss-Legendre x uniform-phi quadrature)
-   and recorded as not-yet-a-theorem in MANIFEST level_note; the full statement is
-     forall a b < 25, a <> b -> RInt_{phi in [0,2pi]} RInt_{theta in [0,pi]} Y_a Y_b sin(theta) = 0
-   and | <Y_a, Y_a> - PI | <= 1e-8 (the library's constants are 9-digit decimals). *)
+   Orthogonality on the sphere: `Gen_C17o.v` (regenerated together with its antiderivative
+   certificates on every run) proves, for all 300 unordered pairs, that the iterated Riemann
+   integral of Y_a Y_b sin(theta) over theta in [0,pi], phi in [0,2pi] vanishes.
+   and that | <Y_k, Y_k> - PI | <= 1e-8 for each of the 25 (the library's constants are 9-digit
+   decimals, so exact equality is false and not claimed). *)
 From Coq Require Import Reals List.
 From ND.lib Require Import Expr.
-From ND.gen Require Import Gen_C17.
+From ND.gen Require Import Gen_C17 Gen_C17o.
+From ND.lib Require Import Sphere.
 From ND.proofs Require Import C17_harmonics C17_bases C17_other.
 Import ListNotations.
 Open Scope R_scope.
@@ -20,6 +21,19 @@ Proof. exact harmonics_eigen. Qed.
 
 Theorem C17_eigenvalues_are_minus_l_l1 : Yeigenvalues = map (fun l => - INR (l * (l + 1))) Ydegrees.
 Proof. exact eigenvalues_are_minus_l_l1. Qed.
+
+(* ---- mutual orthogonality on the sphere (iterated RInt, weight sin theta), all 25 x 25 pairs *)
+Theorem C17_harmonics_orthogonal : forall a b, (a < 25)%nat -> (b < 25)%nat -> a <> b ->
+  sphere_inner (fun th ph => eval (env2 th ph) zp nofenv (nth a Ys (ECst 0)) * eval (env2 th ph) zp nofenv (nth b Ys (ECst 0))) = 0.
+Proof. exact ortho_all. Qed.
+
+(* common normalisation: <Y_k, Y_k> = pi up to the 9-digit constants *)
+Theorem C17_harmonics_normalised : forall k, (k < 25)%nat ->
+  Rabs (sphere_inner (fun th ph => eval (env2 th ph) zp nofenv (nth k Ys (ECst 0)) * eval (env2 th ph) zp nofenv (nth k Ys (ECst 0))) - PI) <= 1 / 100000000.
+Proof. exact norm_all. Qed.
+
+Theorem C17_no_non_orthogonal_pair : non_orthogonal_pairs = 0%nat.
+Proof. reflexivity. Qed.
 
 (* ---- documented column order for every max_degree 0..4 (5 is rejected); position j has the degree
    whose eigenvalue the Laplacian operator uses at j *)
